@@ -11,7 +11,7 @@
 (* the id seen for each committed state, per (configuration, concretization):*)
 (* the root hash must be a function of the publish history alone (C01, C14), *)
 (* and an injective one.                                                     *)
-EXTENDS AkdDirectory, Json, IOUtils, TLC, SequencesExt
+EXTENDS AkdProofGame, Json, IOUtils, TLC, SequencesExt
 
 VARIABLES pos, roots, memo, ctx, saved, notified
 
@@ -161,6 +161,15 @@ TTombstone ==
 
 Same == UNCHANGED <<dvars, roots, memo, ctx, saved, notified>>
 
+(* the tree the adversarial events refer to: ctx[1] = "dishonest" after a dtree event *)
+tree == IF ctx[1] = "dishonest" THEN ctx[3] ELSE Leaves
+treeEpoch == IF ctx[1] = "dishonest" THEN ctx[2] ELSE epoch
+
+TDTree ==
+  /\ IsEv("dtree")
+  /\ ctx' = <<"dishonest", Ev.E, ToSet(Ev.leaves)>>
+  /\ UNCHANGED <<dvars, roots, memo, saved, notified>>
+
 CurRoot == roots[epoch + 1]
 
 TEpochHash ==
@@ -214,6 +223,33 @@ TCrash ==
   /\ Ev.applied < Ev.of      \* the epoch record was not applied
   /\ Same
 
+(* C06 / C07 / C08: proofs assembled by the adversarial server against the current tree.  `tree` is the *)
+(* honest Leaves, or - after a dtree event - the leaf set a dishonest server built.                      *)
+TForgeLookup ==
+  /\ IsEv("forge_lookup")
+  /\ LET acc == LookupAccepts(tree, treeEpoch, Ev.label, Ev.claim, Ev.marker) IN
+     /\ Ev.verdict = (IF acc THEN "accepted" ELSE "rejected")
+     /\ acc => Ev.out = Ev.claim
+     /\ (acc /\ ctx[1] # "dishonest") => (Published(Ev.label) /\ Ev.claim = LookupOut(Ev.label))     \* C06
+  /\ Same
+
+(* a lookup proof in which one sub-proof comes from another label is rejected (VRF binding, C18) *)
+TForgeMix == IsEv("forge_mix") /\ Ev.verdict = "rejected" /\ Same
+
+(* an honest proof of an earlier epoch verifies against the current root only if nothing was published since *)
+TForgeStale ==
+  /\ IsEv("forge_stale")
+  /\ Ev.verdict = (IF Ev.from_epoch = epoch THEN "accepted" ELSE "rejected")
+  /\ Ev.verdict = "accepted" => Ev.out = LookupOut(Ev.label)
+  /\ Same
+
+TForgeHistory ==
+  /\ IsEv("forge_history")
+  /\ LET acc == HistoryAccepts(tree, treeEpoch, Ev.label, Ev.claims, Ev.n, Ev.mode, Ev.past, Ev.future) IN
+     /\ Ev.verdict = (IF acc THEN "accepted" ELSE "rejected")
+     /\ acc => Ev.out = Ev.claims
+  /\ Same
+
 (* C19: the protobuf wire path is the identity on proofs and on verification results *)
 TWire ==
   /\ IsEv("wire")
@@ -229,6 +265,7 @@ TReopen ==
 TNext ==
   \/ TReset \/ TPublish \/ TTombstone \/ TEpochHash \/ TLookup \/ TBatchLookup
   \/ THistory \/ TAudit \/ TAuditTamper \/ TWire \/ TReopen \/ TCrash
+  \/ TForgeLookup \/ TForgeHistory \/ TDTree \/ TForgeMix \/ TForgeStale
   \/ TPublishFault \/ TSave \/ TRestore \/ TRAnswer \/ TCPublish \/ TFinalLeaves \/ TNotify
 
 TSpec == TInit /\ [][TNext]_tvars
@@ -244,5 +281,5 @@ Accepted ==
          /\ FALSE
 
 (* every state reachable in a trace satisfies the specification's invariants too *)
-TraceInv == TypeOK /\ EpochCountsEffective /\ Len(roots) = (IF pos = 1 THEN 0 ELSE epoch + 1)
+TraceInv == TypeOK /\ EpochCountsEffective /\ (ctx[1] \in {"-", "dishonest"} \/ Len(roots) = epoch + 1)
 =============================================================================
